@@ -28,7 +28,7 @@ ASSUMPTIONS = {
 }
 REQUIRED = {
     "C03": ["reads_compared", "crossing_rejected", "readback_after_reject", "evictions", "bfs_transitions", "prog_runs_compared", "uncounted_reads", "preloaded_histories"],
-    "C09": ["counter_checks", "hits", "misses", "write_miss_no_allocate", "uncounted_reads", "penalty_checks_nonzero", "prog_stats_compared"],
+    "C09": ["counter_checks", "hits", "misses", "write_miss_no_allocate", "uncounted_reads", "penalty_checks_nonzero", "prog_stats_compared", "bfs_transitions"],
     "C12": ["invariant_checks", "wt_resident_written", "wb_dirty_evictions", "bfs_transitions", "crossing_rejected"],
 }
 
@@ -39,6 +39,8 @@ def plan(prop, tier, seed):
     sh += [{"kind": "hist", "n": 110 if q else 2500, "ops": 150, "shard": i} for i in range(10 if q else 24)]
     if prop in ("C03", "C12"):
         sh += [{"kind": "bfs", "depth": 4 if q else 6, "cfgi": i, "shard": i} for i in range(10)]
+    if prop == "C09":
+        sh += [{"kind": "bfs", "depth": 4 if q else 6, "cfgi": i, "shard": i, "acct": True} for i in range(10)]
     if prop in ("C03", "C09"):
         sh += [{"kind": "prog", "n": 90 if q else 1500, "shard": i} for i in range(6 if q else 16)]
     return sh
@@ -61,6 +63,7 @@ def gen_history(rng, nops, acct):
     nsets = 1 << cfg["ib"]
     used_sets = rng.sample(range(nsets), min(nsets, rng.choice([1, 1, 2])))
     top = rng.random() < 0.15
+    far = rng.random() < 0.25
     bases = []
     for s in used_sets:
         for k in range(cfg["assoc"] + 2):
@@ -69,6 +72,11 @@ def gen_history(rng, nops, acct):
                 b = (1 << 32) - bs * nsets * (k + 1) + bs * s
             else:
                 b = 0x4000 + bs * nsets * k * rng.choice([1, 1, 2]) + bs * s
+                if far and k:
+                    # conflicting blocks whose tags differ only in high bits (same set)
+                    b = (b + bs * nsets * (1 << rng.choice([8, 12, 16, 20, 24]))) & M32
+                    if b < 0x4000:
+                        b += 0x4000 // (bs * nsets) * bs * nsets + bs * nsets
             bases.append(b)
     bases = sorted(set(bases))
     preload = {}
@@ -386,10 +394,15 @@ def run_bfs(spec, res, prop):
     blocks = [0x4000 + bs * (1 << cfg["ib"]) * k for k in range(cfg["assoc"] + 1)]
     universe = [b + o for b in blocks for o in range(bs)]
     ops = []
+    acct = bool(spec.get("acct"))
     for b in blocks:
-        ops += [("r", b, 4, 0), ("ru", b + 1, 1, 0), ("w", b, 4, 0x11223344), ("w", b + 1, 1, 0xAA), ("w", b + 2, 2, 0xBEEF), ("w", b + 3, 2, 0x1234), ("r", b + 2, 4, 0)]
-    case0 = {"kind": "hist", "cfg": cfg, "bases": blocks, "preload": {}, "ops": [], "acct": False}
+        if acct:  # accepted accesses only: counters and resident tags are compared after every transition
+            ops += [("r", b, 4, 0), ("ru", b + 1, 1, 0), ("w", b, 4, 0x11223344), ("w", b + 1, 1, 0xAA), ("w", b + 2, 2, 0xBEEF), ("r", b + 2, 2, 0), ("ru", b, 4, 0)]
+        else:
+            ops += [("r", b, 4, 0), ("ru", b + 1, 1, 0), ("w", b, 4, 0x11223344), ("w", b + 1, 1, 0xAA), ("w", b + 2, 2, 0xBEEF), ("w", b + 3, 2, 0x1234), ("r", b + 2, 4, 0)]
+    case0 = {"kind": "hist", "cfg": cfg, "bases": blocks, "preload": {}, "ops": [], "acct": acct}
     m0, pm0 = make_system(cfg)
+    ref0 = RefCache(cfg["ib"], cfg["bb"], cfg["assoc"], cfg["policy"], cfg["wt"])
 
     def key(m, flat):
         tags, words, dirty = resident_view(m)
@@ -399,17 +412,17 @@ def run_bfs(spec, res, prop):
         return (repr(tags), tuple(sorted(words.items())), repr(dirty), rs, back)
 
     seen = {key(m0, {})}
-    frontier = [(m0, {}, [])]
+    frontier = [(m0, {}, [], ref0)]
     trans = 0
     depth_reached = 0
     for d in range(spec["depth"]):
         nxt = []
-        for m, flatb, path in frontier:
+        for m, flatb, path, rref in frontier:
             for o in ops:
                 c = copy.deepcopy(m)
                 trans += 1
                 mon = HistMonitor.__new__(HistMonitor)
-                HistMonitor_init_light(mon, dict(case0, ops=path + [list(o)]), res, prop, c, flatb, universe)
+                HistMonitor_init_light(mon, dict(case0, ops=path + [list(o)]), res, prop, c, flatb, universe, copy.deepcopy(rref) if acct else None)
                 mon.op(len(path), *o)
                 if mon.dead:
                     res.transitions += trans
@@ -418,7 +431,7 @@ def run_bfs(spec, res, prop):
                 kk = key(c, None)
                 if kk not in seen:
                     seen.add(kk)
-                    nxt.append((c, dict(mon.flat.b), path + [list(o)]))
+                    nxt.append((c, dict(mon.flat.b), path + [list(o)], mon.ref))
         frontier = nxt
         depth_reached = d + 1
         if not frontier:
@@ -435,7 +448,7 @@ def run_bfs(spec, res, prop):
     res.sample({"bfs_cfg": cfg, "depth": depth_reached, "states": len(seen), "transitions": trans, "ops_per_block": [list(o) for o in ops[:7]]}, 8)
 
 
-def HistMonitor_init_light(mon, case, res, prop, m, flatb, universe):
+def HistMonitor_init_light(mon, case, res, prop, m, flatb, universe, ref=None):
     from architecture_simulator.util.integer_manipulation import ByteOffsetError
     from architecture_simulator.uarch.memory.memory import MemoryAddressError
 
@@ -446,9 +459,9 @@ def HistMonitor_init_light(mon, case, res, prop, m, flatb, universe):
     mon.flat = FlatMem()
     mon.flat.b = dict(flatb)
     # residency is taken from the real cache_repr(); the tag-only reference is only needed for flags
-    mon.ref = RefCache(mon.cfg["ib"], mon.cfg["bb"], mon.cfg["assoc"], mon.cfg["policy"], mon.cfg["wt"])
-    mon.acct = False
-    mon.cyc = 0
+    mon.ref = ref if ref is not None else RefCache(mon.cfg["ib"], mon.cfg["bb"], mon.cfg["assoc"], mon.cfg["policy"], mon.cfg["wt"])
+    mon.acct = ref is not None
+    mon.cyc = mon.pm.cycles  # consistent by construction: every earlier transition on this path was checked
     mon.bs = 4 << mon.cfg["bb"]
     mon.universe = universe
     mon.written = set()
